@@ -89,9 +89,9 @@ REGISTRY = {
                 "for the delivered-token rule only (DESIGN 5, C04)"]},
     "C05": {"parts": [{"module": "props.split", "units": ["split", "make_region", "blocks_lemma", "region_split"]},
                       {"module": "props.regions", "units": ["post_init", "concat_lemma", "meta"]},
-                      {"module": "props.readers", "units": ["fixed", "audioreader"]},
+                      {"module": "props.readers", "units": ["fixed", "audioreader", "proxy"]},
                       {"module": "props.readers", "units": ["recorder"], "include_all": True},
-                      {"module": "props.sources", "units": ["buffer_read", "file_read", "file_open"], "include_all": True},
+                      {"module": "props.sources", "units": ["buffer_read", "file_read", "file_open", "accessors"], "include_all": True},
                       # "the regions are exactly the tokenizer segmentation (C01-C04) of the per-window decisions (C07)"
                       # ... of the tokenizer AS split() USES IT: fresh object per call, no initial phase (context "split")
                       {"module": "props.tokenizer", "units": ["lemmas", "process", "post_process", "iter_tokens", "tokenize"],
@@ -137,8 +137,8 @@ REGISTRY = {
             "witness": "tok", "assumptions": TOK_ASSUME + ["split(): the AudioReader / tokenizer constructors are used by contract"]},
     "C09": {"parts": [{"module": "props.split", "units": ["split", "region_split"]},
                       {"module": "props.iofuncs", "units": ["guess_format", "get_audio_parameters", "get_audio_source", "from_file", "loaders"]},
-                      {"module": "props.readers", "units": ["audioreader", "limiter", "fixed"], "include_all": True},
-                      {"module": "props.sources", "units": ["buffer_init", "buffer_read", "buffer_position", "file_read", "file_open"],
+                      {"module": "props.readers", "units": ["audioreader", "limiter", "fixed", "proxy"], "include_all": True},
+                      {"module": "props.sources", "units": ["buffer_init", "buffer_read", "buffer_position", "file_read", "file_open", "accessors"],
                        "include_all": True}],
             "witness": "api", "assumptions": SPLIT_ASSUME + IO_ASSUME + [
                 "'same audio, same result' is the modularity argument: split() and the framing are verified against the "
@@ -148,19 +148,20 @@ REGISTRY = {
                                                               "loaders", "read_offline", "load"]},
                       {"module": "props.sources", "units": ["buffer_read", "file_read", "file_open"], "include_all": True},
                       {"module": "props.regions", "units": ["post_init"]},
+                      {"module": "props.readers", "units": ["proxy"]},
                       {"module": "props.validator", "units": ["to_array", "numpy_export"]}],
             "witness": "api", "assumptions": IO_ASSUME + [
                 "numpy export: element [c][i] is the signed little-endian value of channel c of sample i -- proved as the "
                 "to_array contract in C07 (numpy axiomatised)"]},
-    "C10": {"parts": [{"module": "props.readers", "units": ["limiter", "fixed", "overlap_iter", "overlap_misc", "audioreader"]},
+    "C10": {"parts": [{"module": "props.readers", "units": ["limiter", "fixed", "overlap_iter", "overlap_misc", "audioreader", "proxy"]},
                       # the wrapped source really obeys the interface contract the wrappers are verified against
                       {"module": "props.sources", "units": ["buffer_read", "file_read", "file_open"], "include_all": True}],
             "witness": "api", "assumptions": RD_ASSUME},
-    "C19": {"parts": [{"module": "props.readers", "units": ["overlap_iter", "overlap_misc", "recorder", "replay_lemma", "audioreader"]},
+    "C19": {"parts": [{"module": "props.readers", "units": ["overlap_iter", "overlap_misc", "recorder", "replay_lemma", "audioreader", "proxy"]},
                       # rewind goes through the limiter: its whole contract (read / rewind / data) is part of the check
                       {"module": "props.readers", "units": ["limiter"], "include_all": True}],
             "witness": "api", "assumptions": RD_ASSUME},
-    "C11": {"parts": [{"module": "props.sources", "units": ["buffer_init", "buffer_read", "buffer_position", "file_read", "file_open"]},
+    "C11": {"parts": [{"module": "props.sources", "units": ["buffer_init", "buffer_read", "buffer_position", "file_read", "file_open", "accessors"]},
                       {"module": "props.iofuncs", "units": ["loaders"], "include_all": True}],
             "witness": "api", "assumptions": [
                 "library models (assumed contracts): binary stream.read(k) / wave.readframes(k) return the next "
